@@ -1,66 +1,223 @@
-(* C06 - Unification returns a most general unifier extending prior bindings.
+(* C06 - Unification returns a most general unifier extending prior bindings; C07 - unification is
+   symmetric.  The SEMANTIC formulation (Spec/SpecUnifySem.v): terms denote finite trees under a
+   valuation of the variables; a valuation solves a substitution set when every bound variable has
+   the value of its binding.  For every fuel and every call of `unify` that returns (the model
+   returns OutOfFuel where the implementation diverges, i.e. on a cyclic substitution set):
 
-   PROVED (all terms without function calls whose complex terms have an atom as functor,
-   all substitutions, all fuel): SOUNDNESS - a successful unification returns a substitution
-   set that keeps every earlier binding verbatim and under which both terms denote the same
-   term (`teq`, Spec/SpecUnify.v: bindings followed, `$_` matching anything, floats by IEEE
-   ==, lists through their nodes with a tail variable standing for the rest of the list) -
-   and no binding cycle is created (C08).  NOT YET PROVED: completeness (failure only when no
-   unifier exists) and generality (no more is bound than a most general unifier binds); the
-   statement is `unify_complete_statement` and both are evaluated on every run against a
-   reference unifier with occurs check (gen/C06.py, lib/refunify.py). *)
-From Suiron Require Import Model.Term Model.Subst Model.Unify Spec.SpecCompare Spec.SpecUnify
-  Proofs.UnifyInv Proofs.UnifyProps Proofs.UnifySound.
+   PROVED
+     (G) most general  every solution of the input that gives both terms the same value solves
+     (C) complete      the result - in particular the result is not a failure.
+         For ALL terms and substitution sets (`$_` denotes anything, NaN nothing): C06_general_complete.
+     (S) sound         on plain terms (no `$_`, no NaN, atom functors, parser-built lists): the
+         result keeps every earlier binding verbatim, is plain, and each of its solutions solves
+         the input and gives both terms the same value: C06_sound.
+     (SYM, C07)        on plain terms: if A = B succeeds with a solvable result, then B = A (any
+         fuel, if it returns) succeeds and the two results have exactly the same solutions:
+         C07_symmetric.
+     and the completeness statement of Spec/SpecUnify.v for every syntactic unifier that has a
+     solution: C06_complete_syntactic.
 
-Definition C06_full : Prop := unify_complete_statement unify.
+   FALSE, with compiled witnesses below
+     1. soundness with `$_`: `$_` inside a term that gets BOUND to a variable stays a wildcard at
+        every later use of that variable: f($X, $X) = f(g($_), g(a)) succeeds with $X = g($_)
+        (Prolog: $X = g(a)), and after $X = f($_) both $X = f(a) and $X = f(b) succeed.
+     2. the order of the operands matters with `$_`: f(g(a), g($_)) gives $X = g(a).
+     3. NaN does not unify with itself (IEEE ==), so `unify_complete_statement` of
+        Spec/SpecUnify.v (C06_full, Properties/C06base.v), whose `teq` relates every float to itself, is false.
+     4. a complex term whose functor is not an atom: if every argument pair is skipped because of
+        `$_`, the result is the EMPTY substitution set - all earlier bindings are lost.
+     5. C07_full of Properties/C07base.v (same fuel on both sides) is false: the swapped order needs
+        one more unit of fuel. *)
+From Coq Require Import String Lia.
+From Suiron Require Import Model.Term Model.Subst Model.Unify Spec.SpecUnify Spec.SpecUnifySem
+  Proofs.UnifyComplete Proofs.UnifySemSound Proofs.UnifySemFun Proofs.UnifySemTeq
+  Proofs.SubstLemmas Proofs.UnifyInv Proofs.UnifySound Proofs.UnifyProps Properties.C06base Properties.C07base.
+Open Scope N_scope.
 
-Theorem C06_partial_sound : forall fuel a b ss ss',
-  wf2 a = true -> wf2 b = true -> wf2_ss ss ->
+(* ---- the theorems ---- *)
+Theorem C06_general_complete : forall fuel a b ss r sigma tr,
+  unify fuel a b ss = Ok r ->
+  solvesr sigma ss -> dens sigma a tr -> dens sigma b tr ->
+  exists ss', r = Some ss' /\ solvesr sigma ss'.
+Proof. exact unify_general_complete. Qed.
+
+Theorem C06_general_complete_plain : forall fuel a b ss r sigma,
+  plain a = true -> plain b = true -> plain_ss ss ->
+  unify fuel a b ss = Ok r ->
+  solves sigma ss -> den sigma a = den sigma b ->
+  exists ss', r = Some ss' /\ solves sigma ss'.
+Proof. exact unify_general_complete_fun. Qed.
+
+Theorem C06_sound : forall fuel a b ss ss',
+  plain a = true -> plain b = true -> plain_ss ss ->
   unify fuel a b ss = Ok (Some ss') ->
-  teq ss' a b /\ keeps ss ss' /\ wf2_ss ss'.
-Proof. exact unify_sound. Qed.
+  plain_ss ss' /\
+  (forall id t, ss_get ss id = Some t -> ss_get ss' id = Some t) /\
+  (forall sigma, solves sigma ss' -> solves sigma ss /\ den sigma a = den sigma b).
+Proof. exact unify_sound_sem. Qed.
 
-(* ... for function terms too: every earlier binding is kept verbatim *)
-Theorem C06_partial_extends : forall fuel a b ss ss',
-  wf_term a = true -> wf_term b = true -> wf_ss ss ->
-  unify fuel a b ss = Ok (Some ss') -> extends ss ss' /\ wf_ss ss'.
-Proof. exact unify_extends. Qed.
+Theorem C07_symmetric : forall fuel fuel' a b ss s1 r2 sigma0,
+  plain a = true -> plain b = true -> plain_ss ss ->
+  unify fuel a b ss = Ok (Some s1) -> solves sigma0 s1 ->
+  unify fuel' b a ss = Ok r2 ->
+  exists s2, r2 = Some s2 /\ forall sigma, solves sigma s1 <-> solves sigma s2.
+Proof. exact unify_symmetric. Qed.
 
-(* ... and following bindings still ends everywhere (no occurs-check-free cycle) *)
-Theorem C06_partial_no_cycle : forall fuel a b ss ss',
-  wf_term a = true -> wf_term b = true -> wf_ss ss ->
-  unify fuel a b ss = Ok (Some ss') -> chains_end ss -> chains_end ss'.
-Proof. exact unify_chains_end. Qed.
+Theorem C06_complete_syntactic : forall fuel a b ss r,
+  plain a = true -> plain b = true -> plain_ss ss ->
+  unify fuel a b ss = Ok r ->
+  (exists s' sigma, unifier s' ss a b /\ plain_ss s' /\ solves sigma s') ->
+  exists ss', r = Some ss'.
+Proof. exact unify_complete_solvable. Qed.
 
-(* the relation is a sensible notion of "same term": reflexive, symmetric, stable under more bindings *)
-Theorem C06_teq_refl : forall ss t, fn_free t = true -> teq ss t t.
-Proof. exact teq_refl. Qed.
-Theorem C06_teq_sym : forall ss a b, teq ss a b -> teq ss b a.
-Proof. exact teq_sym. Qed.
-Theorem C06_teq_mono : forall ss ss', keeps ss ss' -> forall a b, teq ss a b -> teq ss' a b.
-Proof. exact teq_mono. Qed.
+(* on plain terms the relation is the graph of the function *)
+Theorem C06_dens_is_den : forall sigma t tr, plain t = true -> (dens sigma t tr <-> tr = den sigma t).
+Proof.
+  intros sigma t tr P. split; [now apply plain_dens_fun|]. intros ->. now apply plain_dens.
+Qed.
 
-(* non-vacuity: [a, $Y | $T] = [$X, b, c] under $X -> a binds $Y to b and $T to [c] *)
-Definition C06_demo : bool :=
-  let a := TAtom [97%N] in let b := TAtom [98%N] in let c := TAtom [99%N] in
-  let X := TVar 1 [36; 88]%N in let Y := TVar 2 [36; 89]%N in let T := TVar 3 [36; 84]%N in
-  let l1 := TList a (TList Y (TList T empty_list 1 true) 2 false) 3 false in
-  let l2 := TList X (TList b (TList c empty_list 1 false) 2 false) 3 false in
-  match unify 20 l1 l2 [None; Some a] with
-  | Ok (Some [None; Some (TAtom [97%N]); Some (TAtom [98%N]); Some (TList (TAtom [99%N]) _ _ false)]) => wf2 l1 && wf2 l2
-  | _ => false
-  end.
-Example C06_witness : C06_demo = true.
+(* ---- witnesses ---- *)
+Definition at_ (s : string) := TAtom (s2l s).
+Definition X := TVar 1 (s2l "$X").
+Definition f1 (t : term) := TComplex [at_ "f"; t].
+Definition g1 (t : term) := TComplex [at_ "g"; t].
+Definition f2 (t u : term) := TComplex [at_ "f"; t; u].
+
+(* 1. `$_` stored in a binding *)
+Example anon_in_binding :
+  unify 20 (f2 X X) (f2 (g1 TAnon) (g1 (at_ "a"))) [] = Ok (Some [None; Some (g1 TAnon)]).
 Proof. vm_compute. reflexivity. Qed.
 
-Check C06_partial_sound : forall fuel a b ss ss',
-  wf2 a = true -> wf2 b = true -> wf2_ss ss ->
-  unify fuel a b ss = Ok (Some ss') ->
-  teq ss' a b /\ keeps ss ss' /\ wf2_ss ss'.
+Example anon_in_binding_reused :
+  let s1 := [None; Some (f1 TAnon)] in
+  unify 20 X (f1 TAnon) [] = Ok (Some s1) /\
+  unify 20 X (f1 (at_ "a")) s1 = Ok (Some s1) /\
+  unify 20 X (f1 (at_ "b")) s1 = Ok (Some s1).
+Proof. repeat split; vm_compute; reflexivity. Qed.
 
-Print Assumptions C06_partial_sound.
-Print Assumptions C06_partial_extends.
-Print Assumptions C06_partial_no_cycle.
-Print Assumptions C06_teq_refl.
-Print Assumptions C06_teq_sym.
-Print Assumptions C06_teq_mono.
+(* hence the result of a successful unification can have a solution under which the two terms
+   have no common value: soundness fails in the presence of `$_` *)
+Definition sound_rel : Prop :=
+  forall fuel a b ss ss' sigma, unify fuel a b ss = Ok (Some ss') -> solvesr sigma ss' ->
+    exists tr, dens sigma a tr /\ dens sigma b tr.
+
+Ltac inv H := inversion H; subst; clear H.
+
+Theorem anon_not_sound : ~ sound_rel.
+Proof.
+  intro H.
+  set (gb := TrNode [TrAtom (s2l "g"); TrAtom (s2l "b")]).
+  destruct (H 20%nat _ _ _ _ (fun _ => gb) anon_in_binding) as (tr & Da & Db).
+  { intros id t Hg. unfold ss_get in Hg. destruct (N.to_nat id) as [|[|[|n]]]; cbn in Hg; try discriminate. inv Hg.
+    constructor. constructor; [constructor|]. constructor; [constructor|constructor]. }
+  inv Da. match goal with H : Forall2 _ _ _ |- _ => inv H end.
+  match goal with H : Forall2 _ _ _ |- _ => inv H end.
+  match goal with H : Forall2 _ _ _ |- _ => inv H end.
+  match goal with H : Forall2 _ [] _ |- _ => inv H end.
+  repeat match goal with H : dens _ (TVar _ _) _ |- _ => inv H end.
+  inv Db. match goal with H : Forall2 _ _ _ |- _ => inv H end.
+  match goal with H : Forall2 _ _ _ |- _ => inv H end.
+  match goal with H : Forall2 _ _ _ |- _ => inv H end.
+  match goal with H : dens _ (g1 (at_ "a")) _ |- _ => inv H end.
+  match goal with H : Forall2 _ [at_ "g"; at_ "a"] _ |- _ => inv H end.
+  match goal with H : Forall2 _ [at_ "a"] _ |- _ => inv H end.
+  match goal with H : dens _ (at_ "a") _ |- _ => inv H end.
+  subst gb. unfold X in *.
+  match goal with H : dens _ (TVar _ _) (TrNode (_ :: TrAtom _ :: _)) |- _ => inversion H end.
+Qed.
+
+(* 2. the operand order matters with `$_` *)
+Example anon_order :
+  unify 20 (f2 X X) (f2 (g1 (at_ "a")) (g1 TAnon)) [] = Ok (Some [None; Some (g1 (at_ "a"))]).
+Proof. vm_compute. reflexivity. Qed.
+
+(* 3. NaN *)
+Definition nan : f64 := fdiv f64_zero f64_zero.
+
+Example nan_not_self : f64_is_nan nan = true /\ unify 20 (TFloat nan) (TFloat nan) [] = Ok None.
+Proof. split; vm_compute; reflexivity. Qed.
+
+Theorem C06_full_false : ~ C06_full.
+Proof.
+  intro H. destruct nan_not_self as [_ Hu].
+  destruct (H 20%nat (TFloat nan) (TFloat nan) [] None eq_refl eq_refl Hu) as (s & E); [|discriminate E].
+  exists []. split; [intros i t Hi; exact Hi|]. constructor. now left.
+Qed.
+
+(* 4. a functor that is not an atom: every pair skipped, the substitution set is reset *)
+Example reset_without_atom_functor :
+  unify 20 (TComplex [TAnon; at_ "x"]) (TComplex [TAnon; TAnon]) [None; Some (at_ "q")] = Ok (Some []).
+Proof. vm_compute. reflexivity. Qed.
+
+(* 5. fuel: the swapped order costs one more step *)
+Example swapped_needs_more_fuel :
+  unify 1 X (at_ "a") [] = Ok (Some [None; Some (at_ "a")]) /\ unify 1 (at_ "a") X [] = OutOfFuel /\
+  unify 2 (at_ "a") X [] = Ok (Some [None; Some (at_ "a")]).
+Proof. repeat split; vm_compute; reflexivity. Qed.
+
+Theorem C07_full_false : ~ C07_full.
+Proof.
+  intro H. destruct swapped_needs_more_fuel as (H1 & H2 & _).
+  destruct (proj1 (H 1%nat X (at_ "a") [] eq_refl eq_refl) (ex_intro _ _ H1)) as (s2 & E).
+  rewrite H2 in E. discriminate E.
+Qed.
+
+(* 6. (known, C08) no occurs check: $X = f($X) succeeds; its result has no solution in finite trees,
+   so (G), (S) and (SYM) say nothing about what is done with it afterwards *)
+Fixpoint tsize (t : tree) : nat :=
+  match t with
+  | TrNode ts => S (fold_right (fun x a => tsize x + a)%nat 0%nat ts)
+  | TrCons h t => S (tsize h + tsize t)
+  | _ => 1%nat
+  end.
+
+Example occurs_check_absent :
+  unify 20 X (f1 X) [] = Ok (Some [None; Some (f1 X)]) /\
+  forall sigma, ~ solves sigma [None; Some (f1 X)].
+Proof.
+  split; [vm_compute; reflexivity|]. intros sigma H.
+  pose proof (H 1 (f1 X) eq_refl) as E. cbn in E.
+  apply (f_equal tsize) in E. cbn in E. lia.
+Qed.
+
+(* ---- non-vacuity: [a, $Y | $T] = [$X, b, c] under $X -> a; the result has a solution, under it
+   both lists have the value [a, b, c]; the other order gives the same bindings ---- *)
+Definition Y := TVar 2 (s2l "$Y").
+Definition T := TVar 3 (s2l "$T").
+Definition l1 := TList (at_ "a") (TList Y (TList T empty_list 1 true) 2 false) 3 false.
+Definition l2 := TList X (TList (at_ "b") (TList (at_ "c") empty_list 1 false) 2 false) 3 false.
+Definition ss0 : subst := [None; Some (at_ "a")].
+Definition sg : valuation := fun id =>
+  match id with
+  | 1 => TrAtom (s2l "a")
+  | 2 => TrAtom (s2l "b")
+  | 3 => TrCons (TrAtom (s2l "c")) TrNil
+  | _ => TrJunk
+  end.
+
+Example demo :
+  plain l1 = true /\ plain l2 = true /\
+  (exists s1, unify 20 l1 l2 ss0 = Ok (Some s1) /\ unify 20 l2 l1 ss0 = Ok (Some s1) /\ solves sg s1) /\
+  den sg l1 = TrCons (TrAtom (s2l "a")) (TrCons (TrAtom (s2l "b")) (TrCons (TrAtom (s2l "c")) TrNil)) /\
+  den sg l1 = den sg l2.
+Proof.
+  split; [reflexivity|]. split; [reflexivity|]. split; [|split; reflexivity].
+  eexists. split; [vm_compute; reflexivity|]. split; [vm_compute; reflexivity|].
+  intros id t Hg. unfold ss_get in Hg.
+  destruct (N.to_nat id) as [|[|[|[|n]]]] eqn:E; cbn in Hg; try discriminate;
+    try (destruct n; discriminate Hg);
+    apply (f_equal N.of_nat) in E; rewrite N2Nat.id in E; subst id;
+    inversion Hg; subst; reflexivity.
+Qed.
+
+
+Print Assumptions C06_general_complete.
+Print Assumptions C06_general_complete_plain.
+Print Assumptions C06_dens_is_den.
+
+Print Assumptions C06_sound.
+Print Assumptions C07_symmetric.
+Print Assumptions C06_complete_syntactic.
+Print Assumptions anon_not_sound.
+Print Assumptions C06_full_false.
+Print Assumptions C07_full_false.
